@@ -135,6 +135,12 @@ func slotAlts() []slotAlt {
 		{label: "alias-struct", typ: "AliasSquare", declA: "type AliasSquare = Square\n", local: true},
 		{label: "alias-slice", typ: "AliasInts", declA: "type AliasInts = []int\n", local: true},
 		{label: "Blob", typ: "Blob", declA: "type Blob []byte\n", local: true},
+		{label: "alias-chain-named-slice", typ: "AliasA", declA: "type Ints []int\n\ntype AliasB = Ints\n\ntype AliasA = AliasB\n", local: true},
+		{label: "alias-chain-struct", typ: "AliasA", declA: "type AliasB = Square\n\ntype AliasA = AliasB\n", local: true},
+		{label: "alias-chain-enum", typ: "AliasA", declA: "type AliasB = Color\n\ntype AliasA = AliasB\n", local: true},
+		{label: "one-letter-int64", typ: "N", declA: "type N int64\n", local: true},
+		{label: "one-letter-string", typ: "L", declB: "type L string\n", local: true},
+		{label: "two-letter-id", typ: "ID", declA: "type ID int64\n", local: true},
 		// sql nullables and look-alikes
 		{label: "sql.NullInt64", typ: "sql.NullInt64"},
 		{label: "sql.NullString", typ: "sql.NullString"},
